@@ -49,9 +49,10 @@ TWIN = r"^print_rules_output$"
 # sites accepted on a stated assumption (part of the claim, listed in the evidence)
 ASSUMED = [
     (r"^report_at_least_one$",
-     "A1: the by-lhs map of report_at_least_one holds at most one key: its only caller (real_binary_operation, reached only "
-     "from the map-key filter of eval_context, whose left-hand sides are map keys, i.e. strings) passes the comparisons "
-     "of ONE scalar left-hand value; with one key the iteration order cannot matter. Encoded as len(map) <= 1."),
+     "A1: the by-lhs map of report_at_least_one holds at most one key. Decided on MIR (single_key_lemmas): real_binary_operation "
+     "passes it the results of ONE each_lhs_compare call, and each_lhs_compare keeps the given lhs in every result unless that lhs "
+     "is a list. Assumed: its only caller reaches it from the map-key filter of eval_context, whose left-hand sides are map "
+     "keys (strings, never lists), and key equality is reflexive. With one key the iteration order cannot matter. Encoded as len(map) <= 1."),
 ]
 SER_TOLERATED = [
     (r"TestExpectations", "rules", "input-side struct of `test` files: deserialised, never written to an output (assumption A2)"),
@@ -166,6 +167,75 @@ def adaptors_unsafe(sites):
             continue
         out.append((method, line[:200]))
     return out
+
+
+def single_key_lemmas(a):
+    """the two halves of assumption A1 that can be decided on MIR:
+    L1 each_lhs_compare(cmp, lhs, rhs): unless lhs is a list, every comparison result it produces carries the GIVEN lhs
+       (the same Rc), whatever the comparator answers;
+    L2 real_binary_operation hands report_at_least_one exactly the results of ONE each_lhs_compare call.
+    Together: the by-lhs map built by report_at_least_one has one key whenever the left-hand value is not a list
+    (what remains assumed: the only caller passes map keys, i.e. strings, and key equality is reflexive)."""
+    same = lambda x, y: x is not None and y is not None and str(x) == str(y)
+    cmp_model = lambda ex, av: ex.fresh_result(ex.opq(), "cmp")
+
+    def pure_bool(tag):
+        # is_list / is_scalar are functions of the value: two calls on the same value give the same answer
+        def m(ex, av):
+            if not av or av[0][0] != "opaque":
+                return ex.havoc("bool")
+            k = (tag, av[0][1])
+            if k not in ex.proj:
+                ex.proj[k] = ex.havoc("bool")
+            return ex.proj[k]
+        return m
+    ex = a.exec(r"each_lhs_compare", {"next": mirexec.m_iter_next, "into_iter": mirexec.m_new_iter, "iter": mirexec.m_new_iter,
+                                      "clone": mirexec.m_identity, "call": cmp_model,
+                                      "is_list": pure_bool("is_list"), "is_scalar": pure_bool("is_scalar")},
+                log=("push",), unroll=1, max_paths=40000)
+    a.fns.append("rules::eval::each_lhs_compare")
+    lhs = ex.arg_env["_2"]
+    bad, npush = [], 0
+    for p in ex.paths:
+        foreign = False
+        for e in p.events:
+            if e[0] != "call" or e[1] != "push" or len(e[2]) != 2 or e[2][1][0] != "variant" or e[2][1][1] != "ComparisonResult":
+                continue
+            npush += 1
+            inner = e[2][1][3][0] if e[2][1][3] else None
+            got = None
+            if inner is not None and inner[0] == "struct":
+                pair = inner[2].get("pair")
+                got = pair[2].get("lhs") if pair is not None and pair[0] == "struct" else inner[2].get("lhs")
+            if not same(got, lhs):
+                foreign = True
+        if foreign:
+            isl = [e[3][1] for e in p.events if e[0] == "call" and e[1] == "is_list" and e[2] and same(e[2][0], lhs) and e[3][0] == "bool"]
+            bad.append(f"(and {pc_term(p.pc)} (not {isl[0]}))" if isl else pc_term(p.pc))
+    a.discharge("order/lemma/each_lhs_compare-keeps-lhs", ex, bad,
+                f"each_lhs_compare, one right-hand value ({npush} result pushes over all paths), comparator result arbitrary: every "
+                "ComparisonResult pushed carries the lhs Rc it was given, except on paths where lhs.is_list() holds")
+    ex2 = a.exec(r"real_binary_operation", {"next": mirexec.m_iter_next, "into_iter": mirexec.m_new_iter, "iter": mirexec.m_new_iter,
+                                            "clone": mirexec.m_identity, "each_lhs_compare": m_result_opq,
+                                            "report_at_least_one": m_result_opq, "report_all_values": m_result_opq,
+                                            "start_record": mirexec.m_result_unit, "end_record": mirexec.m_result_unit,
+                                            "not_compare": lambda ex, av: ex.opq(), "in_cmp": lambda ex, av: ex.opq()},
+                 log=("push", "extend"), unroll=1, max_paths=40000)
+    a.fns.append("rules::eval::real_binary_operation")
+    bad2, ncall = [], 0
+    for p in ex2.paths:
+        elc = [e for e in p.events if e[0] == "call" and e[1] == "each_lhs_compare"]
+        ral = [e for e in p.events if e[0] == "call" and e[1] == "report_at_least_one"]
+        for r in ral:
+            ncall += 1
+            i = p.events.index(r)
+            prev = [e for e in elc if p.events.index(e) < i]
+            ok = bool(prev) and prev[-1][3][0] == "enum" and same(r[2][0], prev[-1][3][3]["Ok"])
+            if not ok:
+                bad2.append(pc_term(p.pc))
+    a.discharge("order/lemma/one-lhs-per-report_at_least_one", ex2, bad2,
+                f"real_binary_operation, one left-hand value ({ncall} calls over all paths): report_at_least_one always receives the Ok "
+                "result of the each_lhs_compare call made just before it for that single left-hand value")
 
 
 def order_independence(a):
@@ -361,4 +431,4 @@ def replay_determinism(a, runs=8):
         shutil.rmtree(d, ignore_errors=True)
 
 
-SITES = {"C05": [order_independence]}
+SITES = {"C05": [order_independence, single_key_lemmas]}
